@@ -239,6 +239,9 @@ func (vc *VC) call(in ssa.Instruction, c *ssa.CallCommon, st *State, reach Term)
 		if r, ok := vc.bytesStdlib(calleeName(f), args, st, reach, rt, pos); ok {
 			return r
 		}
+		if detStdlib[calleeName(f)] {
+			return vc.detApply(calleeName(f), args, rt)
+		}
 		if pureStdlib[calleeName(f)] {
 			vc.assume("assumed pure and total (external): " + calleeName(f))
 			r := vc.freshTyped(st, "call", rt, reach)
